@@ -700,6 +700,18 @@ def R2(ctx, rule="R2", strict_order=True):
                               "the seen flags guarding the pair are not reset for every outer element (%s): a pair examined for one element is skipped for all others" % why_reset)
                     n_ok += 1
                     continue
+            if (p2 or "").endswith("visit::VisitMap::visit") and len(t2["args"]) >= 2:
+                # petgraph's visit map as the seen set: `visit(x)` marks x and is true exactly the first time
+                x2 = strip_refs(expr_operand(b, t2["args"][1]))
+                vals = {pc[sym] for pc in cm["pcs"] if sym in pc}
+                first_only = "0" not in vals and bool(vals)
+                ok_reset, why_reset = visitmap_reset(ctx, cm, t2)
+                ctx.check(x2 == cm["b"] and first_only and ok_reset, rule, "seen-flag", m.where(b, sym[1]),
+                          "per-iteration seen set (petgraph visit map: test-and-set by `visit(b)`) guards the pair and is reset at the start of every outer iteration",
+                          "the visit map guarding the pair is not a per-outer-element seen set of the inner element (marks the inner element: %s, taken on first visit: %s, reset: %s)" % (
+                              x2 == cm["b"], first_only, why_reset or ok_reset))
+                n_ok += 1
+                continue
             if p2 == HAS_PATH:
                 # same endpoints, same order, same graph
                 a2 = strip_refs(expr_operand(b, t2["args"][1]))
@@ -751,6 +763,50 @@ def R2(ctx, rule="R2", strict_order=True):
     # guards tainted by ranks / edge weights anywhere in the iterator chains feeding the pair
     R2_chain_filters(ctx, rule, cm)
     ctx.floor(rule, 2, "guards between pair enumeration and insertion")
+
+
+def visitmap_reset(ctx, cm, visit_t):
+    """the visit map used as seen set is `graph.visit_map()`, reset by `graph.reset_map(&mut map)` in the outer per-element
+    body before the inner enumeration, and written by nothing else than `visit`"""
+    m, fl = ctx.model, ctx.model.flow
+    b = cm["site"][0]
+    msrc = {(s_[1], s_[2]) for s_ in fl.sources_operand(b, visit_t["args"][0]) if s_.kind == "alloc" and s_[4].endswith("Visitable::visit_map")}
+    if not msrc:
+        return False, "the map is not a petgraph visit_map() of the graph"
+    fr = enum_frame(ctx, cm)
+    site_b, site_bb = (fr["body"], fr["bb"]) if fr["body"].id != b.id else (b, cm["site"][1])
+    resets = []
+    for body in build_reach(ctx):
+        for bb, t in body.calls():
+            p = callee_path(t) or ""
+            for ai_, a in enumerate(t["args"]):
+                ty = a.get("pl", {}).get("ty", "") if isinstance(a, dict) else ""
+                if not ty.startswith("&mut"):
+                    continue
+                if not any(s_.kind == "alloc" and (s_[1], s_[2]) in msrc for s_ in fl.sources_operand(body, a)):
+                    continue
+                if p.endswith("Visitable::reset_map"):
+                    resets.append((body, bb))
+                elif p.endswith("VisitMap::visit") or p in ctx.fb.bodies or p in ("std::ops::DerefMut::deref_mut",):
+                    continue
+                else:
+                    return False, "the visit map is also written by %s in %s" % (p, short(body.id))
+    if site_b.kind == "closure":
+        uses = fl.closure_uses(site_b)
+        if len(uses) != 1:
+            return False, "inner closure not passed to one consumer"
+        ob, ubb, ut, ai = uses[0]
+        if any(rb.id == ob.id and ob.dominates(rbb, ubb) for rb, rbb in resets):
+            return True, ""
+        return False, "no reset_map() dominating the inner enumeration in %s" % short(ob.id)
+    lr_in = loop_region(ctx, site_b, site_bb)
+    lr_out = loop_region(ctx, site_b, site_bb, skip_headers=(lr_in["header"],)) if lr_in else None
+    if lr_in is None or lr_out is None:
+        return False, "the insertion is not inside two nested loops"
+    between = lr_out["blocks"] - lr_in["blocks"]
+    if any(rb.id == site_b.id and rbb in between and site_b.dominates(rbb, lr_in["header"]) for rb, rbb in resets):
+        return True, ""
+    return False, "no reset_map() in the outer loop body before the inner loop"
 
 
 def seen_test_and_set(ctx, b, t2, cm):
@@ -1021,6 +1077,38 @@ def R3(ctx, rule="R3", parts=("structures", "counts", "graph-field")):
         ctx.bad(rule, "augment", m.where(b), "build() does not call a crate-local function taking `&mut` the user's graph (data-edge augmentation missing)")
         return
     gsrc = fl.sources_operand(b, aug[1]["args"][0])
+    # a private phase helper that takes `&mut graph` and itself runs ranks -> augmentation -> counts: the order of those three
+    # is checked inside it, build() only has to copy the structure after calling it
+    hb = ctx.fb.bodies.get(callee_path(aug[1]) or "")
+    h_aug = None
+    if hb is not None and hb.kind == "fn":
+        for hbb, ht in hb.calls():
+            hp = callee_path(ht) or ""
+            if hp in ctx.fb.bodies and any((a.get("pl", {}).get("ty", "")).startswith("&mut daggy::Dag<F,") for a in ht["args"] if isinstance(a, dict)):
+                h_aug = (hbb, ht)
+    if h_aug is not None:
+        hg = fl.sources_operand(hb, h_aug[1]["args"][0], (), "prov@" + hb.id)
+        for hbb, ht in hb.calls():
+            hp = callee_path(ht) or ""
+            if hp not in ctx.fb.bodies or (hbb, ht) == h_aug:
+                continue
+            if not any((a.get("pl", {}).get("ty", "")).startswith("&daggy::Dag<F,") for a in ht["args"] if isinstance(a, dict)):
+                continue
+            same = fl.sources_operand(hb, ht["args"][0], (), "prov@" + hb.id) == hg
+            if "Rank" in ht["dest"]["ty"]:
+                if "ranks" in parts:
+                    ctx.check(hb.dominates(hbb, h_aug[0]) and same, rule, "ranks-before-augment", m.where(hb, hbb),
+                              "the rank calculation in %s runs on the user's edges before augmentation" % short(hb.id),
+                              "the rank calculation runs after / without preceding data-edge augmentation: ranks would count Data edges")
+            elif "counts" in parts:
+                ctx.check(hb.dominates(h_aug[0], hbb) and same, rule, "after-augment|%s" % short(hp), m.where(hb, hbb),
+                          "%s reads the same graph after data-edge augmentation (augment call dominates it)" % short(hp),
+                          "%s is evaluated on the graph before augmentation / on a different graph: Data edges are ignored" % short(hp))
+        if "ranks" in parts:
+            parts = tuple(x for x in parts if x != "ranks")
+            # no second rank calculation in build() itself
+            extra = [bb for bb, t in b.calls() if (callee_path(t) or "") in ctx.fb.bodies and t["dest"]["ty"].startswith("std::vec::Vec<rank::Rank")]
+            ctx.check(not extra, rule, "ranks-once", m.where(b), "ranks are computed once, inside the phase helper", "build() computes ranks again outside the phase helper")
     for bb, t, name in later:
         part = "structures" if name in ("raw_edges", "raw_nodes") else "counts"
         p_ = callee_path(t) or ""
@@ -1345,6 +1433,24 @@ def ID_rules(ctx, rule="ID"):
                         ub, ubb, ut, ai = uses[0]
                         sel = [c[0] for c in iterator_chain(ctx, ub, expr_operand(ub, ut["args"][0])) if c[0] in SELECTIVE_ITER or c[0] in REORDER_ITER]
                     over.append((v_ok and drv_ok and not sel, "slot <- %s%s" % (sorted(fmt_src(x) for x in vsrc)[:2], " narrowed by %s" % sel if sel else "")))
+            # `for (f, slot) in fns.into_iter().zip(ids.iter_mut()) { *slot = self.add_fn(f); }` in the method's own body
+            for bb, si, st in b.stmts():
+                if st["k"] != "assign" or st["pl"]["p"] != ["*"] or "NodeIndex" not in st["pl"].get("ty", ""):
+                    continue
+                tsrc = fl.sources_local(b, st["pl"]["l"], ())
+                if not (tsrc and all(x.kind == "alloc" and (x[1], x[2]) in pk and "$item" in x[3] for x in tsrc)):
+                    continue
+                vsrc = fl.sources_operand(b, st["rv"]["op"]) if st["rv"]["k"] == "use" else frozenset()
+                v_ok = bool(vsrc) and all(x.kind == "alloc" and x[4] in ADD_NODE for x in vsrc)
+                lr_ = loop_region(ctx, b, bb)
+                sel = ["not in a loop"]
+                if lr_ is not None:
+                    sel = [c[0] for c in iterator_chain(ctx, b, lr_["iter_expr"]) if c[0] in SELECTIVE_ITER or c[0] in REORDER_ITER] if lr_.get("iter_expr") is not None else []
+                    if lr_["early_exits"]:
+                        sel.append("early exit")
+                    if [g for g in cond_guards(b, bb) if g[0] in lr_["blocks"] and g[0] != lr_.get("switch_bb")]:
+                        sel.append("conditional")
+                over.append((v_ok and not sel, "slot <- %s%s" % (sorted(fmt_src(x) for x in vsrc)[:2], " (%s)" % sel if sel else "")))
             for hp, hsites in sorted(helpers.items()):
                 hb = fb.bodies[hp]
                 for bb, si, st in hb.stmts():
@@ -2007,12 +2113,33 @@ def D4(ctx, rule="D4"):
         b = fb.bodies[bid]
         for bb, t in b.calls():
             if callee_path(t) in ("std::iter::Iterator::try_fold", "std::iter::Iterator::all", "std::iter::Iterator::eq", "std::iter::Iterator::fold",
-                                  "std::iter::Iterator::find_map", "std::iter::Iterator::any", "std::iter::Iterator::position", "std::iter::Iterator::find"):
+                                  "std::iter::Iterator::find_map", "std::iter::Iterator::any", "std::iter::Iterator::position", "std::iter::Iterator::find",
+                                  "std::iter::Iterator::try_for_each"):
                 chain = iterator_chain(ctx, b, expr_operand(b, t["args"][0]))
                 names = [c[0] for c in chain]
                 sel = [n for n in names if n in SELECTIVE_ITER]
                 if "std::iter::Iterator::zip" in names:
                     zips += 1
+                    if b.kind == "fn" and b.id != eqb.id and not (fb.fns.get(b.id) or {}).get("public"):
+                        # a private generic helper (`pairs_all_eq(a, b, |x, y| ..)`) used for each of the two comparisons: one zipped
+                        # comparison per call; each call's result must be a conjunct of the returned value
+                        hsites = [(cb_, cbb_, ct_) for (cb_, cbb_, ct_) in fl.call_sites().get(b.id, []) if cb_.id in m.reach(eqb.id) and not fb.is_test_body(cb_)]
+                        zips += max(0, len(hsites) - 1)
+                        pcs_h = []
+                        for xb in eqb.exits():
+                            pcs_h += (path_conditions(eqb, xb, ret_local=0) or [{"$ret": ("unknown", "too many paths")}])
+                        for (cb_, cbb_, ct_) in hsites:
+                            okh = cb_.id == eqb.id and bool(pcs_h)
+                            sym_ = ("call", cbb_)
+                            for pc in pcs_h:
+                                ret = pc.get("$ret")
+                                if (ret is not None and ret[0] == "const" and str(ret[1]) in ("0", "false")) or ret == sym_:
+                                    continue
+                                if pc.get(sym_) is None or pc.get(sym_) == "0":
+                                    okh = False
+                            ctx.check(okh, rule, "conjunctive-call|%d" % cbb_, m.where(cb_, cbb_),
+                                      "the result of this pairwise comparison is a conjunct of the value == returns",
+                                      "== can return true although this pairwise comparison was false or never made")
                     ctx.check(not sel, rule, "zip-unfiltered|%d" % zips, m.where(b, bb), "pairwise comparison over the full zipped sequences", "comparison narrowed by %s" % sel)
                     okc, whyc = conjunctive_consumer(ctx, b, bb, t)
                     ctx.check(okc, rule, "conjunctive|%d" % zips, m.where(b, bb),
@@ -2130,6 +2257,42 @@ def conjunctive_consumer(ctx, b, bb, t):
         return True, p.split("::")[-1]
     if p in ("std::iter::Iterator::find_map", "std::iter::Iterator::any", "std::iter::Iterator::position", "std::iter::Iterator::find"):
         return difference_search(ctx, b, bb, t)
+    if p == "std::iter::Iterator::try_for_each":
+        # zip(..).try_for_each(|(x, y)| if cmp(x, y) { Continue(()) } else { Break(()) }).is_continue()
+        fcl = closure_of_arg(ctx, b, expr_operand(b, t["args"][1])) if len(t["args"]) > 1 else None
+        if fcl is None:
+            return False, "try_for_each closure not found"
+        cmps = []
+        for sb, blk in enumerate(fcl.blocks):
+            if blk["term"]["k"] == "switch":
+                e = strip_refs(switch_expr_(fcl, sb))
+                if e.kind == "call" and (e[1] in ("std::cmp::PartialEq::eq", "std::cmp::PartialEq::ne") or
+                                         (len(e) > 3 and is_param_call(fcl.blocks[e[3]]["term"]))):
+                    cmps.append((sb, e[1] if e[1] else "callback"))
+        n_break = 0
+        conts_ok = bool(cmps)
+        for kind, dbb, si, x in get_defs(fcl).of(0):
+            rv = x["rv"] if kind == "stmt" else None
+            if rv is not None and rv["k"] == "agg" and ((rv.get("def") == "std::ops::ControlFlow" and rv.get("variant") == "Break") or
+                                                       (rv.get("def") == "std::result::Result" and rv.get("variant") == "Err") or
+                                                       (rv.get("def") == "std::option::Option" and rv.get("variant") == "None")):
+                n_break += 1
+                continue
+            gs = {sb: vals for sb, vals in guards_of_(fcl, dbb)}
+            for sb, fn in cmps:
+                vals = gs.get(sb)
+                if vals is None or (not str(fn).endswith("::ne") and "0" in vals) or (str(fn).endswith("::ne") and vals != frozenset(["0"])):
+                    conts_ok = False
+        # the consumer's result is turned into a bool by `is_continue()` / `is_ok()` / `is_some()`
+        pos = False
+        for ubb, ut in b.calls():
+            if (callee_path(ut) or "").split("::")[-1] in ("is_continue", "is_ok", "is_some") and ut["args"]:
+                e0 = strip_refs(expr_operand(b, ut["args"][0]))
+                if e0.kind == "call" and len(e0) > 3 and e0[3] == bb:
+                    pos = True
+        if n_break and conts_ok and pos:
+            return True, "try_for_each that breaks unless the comparison(s) of the pair hold, read with is_continue()"
+        return False, "try_for_each: breaks on an unequal pair: %s, continues only on equal pairs: %s, result read positively: %s" % (bool(n_break), conts_ok, pos)
     fcl = closure_of_arg(ctx, b, expr_operand(b, t["args"][2])) if len(t["args"]) > 2 else None
     if fcl is None:
         return False, "fold closure not found"
@@ -2207,6 +2370,7 @@ POLY_GRAPH_CALLS = (
     "::raw_edges", "::raw_nodes", "::add_node", "::add_edge", "::update_edge", "::graph", "::index", "::new", "::source", "::target",
     "algo::has_path_connecting", "::node_weight", "::node_weights_mut", "::edge_weight", "::next", "::find_edge", "::toposort",
     "::node_identifiers", "::externals", "::neighbors", "::neighbors_directed", "::edges", "::edges_directed", "::edge_references", "::from_elem",
+    "Visitable::visit_map", "Visitable::reset_map", "VisitMap::visit", "VisitMap::is_visited", "::node_weights", "::node_bound", "::with_capacity",
 )
 
 
@@ -2217,8 +2381,17 @@ def rank_calc_body(ctx):
         return None
     for bb, t in b0.calls():
         p = callee_path(t) or ""
-        if p in ctx.fb.bodies and "Rank" in t["dest"]["ty"]:
+        if p in ctx.fb.bodies and "Rank" in t["dest"]["ty"] and t["dest"]["ty"].startswith("std::vec::Vec<"):
             return ctx.fb.bodies[p]
+    # called from a private phase helper of build() (`GraphAnalysis::augment_and_analyze(&mut graph)`)
+    for bx in build_reach(ctx):
+        if bx.kind != "fn" or bx.id == b0.id:
+            continue
+        for bb, t in bx.calls():
+            p = callee_path(t) or ""
+            if p in ctx.fb.bodies and t["dest"]["ty"].startswith("std::vec::Vec<rank::Rank") and \
+                    any((a.get("pl", {}).get("ty", "")).startswith("&daggy::Dag<F,") for a in t["args"] if isinstance(a, dict)):
+                return ctx.fb.bodies[p]
     return None
 
 
